@@ -18,10 +18,15 @@ def gen_pop(rng, multi):
     def pop(n):
         return {'n': n, 'a': [rng.randint(4, 48) / 16 for _ in range(n)], 'x0': [pool.pop() / 64 for _ in range(n)]}
     pops = {'pa': pop(rng.randint(1, 4)), 'pb': pop(rng.randint(1, 3))}
+    if multi and rng.random() < 0.6:
+        pops['pc'] = pop(rng.randint(1, 3))      # a third population: one source can have three and more delayed targets
+    names = list(pops)
     conns = []
     used_src = set()
-    for s, t in [('pa', 'pb'), ('pb', 'pa'), ('pa', 'pa'), ('pb', 'pb')]:
-        if rng.random() < 0.6:
+    pairs = [(s, t) for s in names for t in names]
+    rng.shuffle(pairs)
+    for s, t in pairs:
+        if rng.random() < (0.6 if len(names) == 2 else 0.45):
             ns, nt = pops[s]['n'], pops[t]['n']
             if rng.random() < 0.3:
                 W = rng.randint(-32, 32) / 32 or 0.5
@@ -29,7 +34,7 @@ def gen_pop(rng, multi):
                 W = [[(rng.randint(-32, 32) / 32) if rng.random() < 0.75 else 0.0 for _ in range(ns)] for _ in range(nt)]
                 if not any(any(r) for r in W):
                     W[0][0] = 0.5
-            d = rng.choice([None, rng.randint(2, 9)])
+            d = rng.choice([None, rng.randint(2, 9), rng.randint(2, 9)] if multi else [None, rng.randint(2, 9)])
             if not multi and d is not None and s in used_src:
                 d = None        # at most one delayed connection per source population in the single stratum
             if d is not None:
